@@ -1026,3 +1026,31 @@ def np_finfo(I, args, kwargs):
     o.attrs = {"eps": Fraction(1, 2 ** 52)}
     USED.add("np.finfo(np.float64).eps == 2**-52 (exact rational)")
     return o
+
+
+@method("arr", "swapaxes")
+def arr_swapaxes(I, recv, args, kwargs):
+    a, b = args
+    if recv.ndim == 3 and {a, b} == {1, 2}:
+        return SArr((recv.shape[0], recv.shape[2], recv.shape[1]), lambda i, j, k: recv.fn(i, k, j), recv.dtype, recv.kind)
+    raise Undecided("swapaxes")
+
+
+def _reshape_2d_to_3d(I, a, shp):
+    n, t, c = shp
+    if not I.ctx.entails(And(Eq(_mul(I, n, t), a.shape[0]), Eq(c, a.shape[1]))):
+        if I.ctx.branch(Not(And(Eq(_mul(I, n, t), a.shape[0]), Eq(c, a.shape[1]))), "reshape-size-mismatch"):
+            raise SymRaise(ExcVal(ExtClass("builtins.ValueError"), ()), where="reshape: size mismatch")
+    return SArr((n, t, c), lambda i, j, k: a.fn(simp(to_z3(i) * to_z3(t) + to_z3(j)), k), a.dtype, "ndarray")
+
+
+_old_reshape = arr_reshape
+
+
+@method("arr", "reshape")
+def arr_reshape2(I, recv, args, kwargs):
+    shp = list(args[0].items) if len(args) == 1 and isinstance(args[0], SList) else list(args)
+    if recv.ndim == 2 and len(shp) == 3:
+        USED.add("ndarray.reshape: C-order (row-major) re-indexing")
+        return _reshape_2d_to_3d(I, recv, shp)
+    return _old_reshape(I, recv, args, kwargs)
